@@ -55,6 +55,22 @@ class ExecutionPlan:
         pre_execution_plan = self.add_feature_group_step(queue, graph.parent_to_children_mapping, child_links)
         fw_execution_plan = self.add_joinstep(pre_execution_plan, link_trekker, graph)
         self.execution_plan = self.add_tfs(fw_execution_plan, graph)
+        self._validate_required_uuids_are_produced()
+
+    def _validate_required_uuids_are_produced(self) -> None:
+        """A step waiting for a uuid that no step of the plan produces would never start and the run would never finish."""
+        produced: Set[UUID] = set()
+        for step in self.execution_plan:
+            produced.update(step.get_uuids())
+
+        for step in self.execution_plan:
+            missing = set(step.required_uuids) - produced
+            if missing:
+                raise ValueError(
+                    f"Execution plan is incomplete: step {step} waits for {missing}, which no step of the plan produces. "
+                    "This usually means that a Link could not be turned into a join step for the given feature groups "
+                    "and compute frameworks. Please check your links."
+                )
 
     def add_feature_group_step(
         self,
